@@ -166,6 +166,27 @@ pub fn materialize(spec: &Value) -> Result<(String, Vec<u8>), String> {
     Err("bad source spec".into())
 }
 
+thread_local! {
+    static MATERIALIZED: std::cell::RefCell<std::collections::HashMap<String, (String, Vec<u8>)>> = Default::default();
+}
+
+/// Forget the assets produced by `materialize_cached` (call at the start of a case).
+pub fn clear_cache() {
+    MATERIALIZED.with(|m| m.borrow_mut().clear());
+}
+
+/// `materialize`, but the same source spec yields the same bytes within a case (signing is not deterministic:
+/// fresh manifest labels, instance ids, signature randomness).
+pub fn materialize_cached(spec: &Value) -> Result<(String, Vec<u8>), String> {
+    let key = spec.to_string();
+    if let Some(hit) = MATERIALIZED.with(|m| m.borrow().get(&key).cloned()) {
+        return Ok(hit);
+    }
+    let v = materialize(spec)?;
+    MATERIALIZED.with(|m| m.borrow_mut().insert(key, v.clone()));
+    Ok(v)
+}
+
 fn spec_context(spec: &Value) -> Context {
     match spec.get("settings") {
         Some(s) if s.is_object() => context(Some(&s.to_string())),
@@ -184,7 +205,7 @@ pub fn builder_from_spec(spec: &Value) -> c2pa::Result<Builder> {
     }
     if let Some(ings) = spec["ingredients"].as_array() {
         for ing in ings {
-            let (fmt, bytes) = materialize(&ing["src"]).map_err(c2pa::Error::BadParam)?;
+            let (fmt, bytes) = materialize_cached(&ing["src"]).map_err(c2pa::Error::BadParam)?;
             let mut s = Cursor::new(bytes);
             b.add_ingredient_from_stream(ing["json"].to_string(), &fmt, &mut s)?;
         }
